@@ -272,6 +272,8 @@ func writeEvidence(rep *report) {
 		"checker_cmd":              fmt.Sprintf("/verif/bin/govc check --property %s --tier %s", rep.prop, rep.tier),
 		"trusted_base":             trusted,
 		"functions_under_contract": rep.ck.funcsUnder,
+		"functions_verified_for_their_frame_only": rep.ck.framesOnly,
+		"property_dependencies":    propDeps[rep.prop],
 		"by_backend":               byBackend,
 		"by_kind":                  kinds,
 		"solver_time_s":            round2(solverTime),
